@@ -513,10 +513,12 @@ def run_wf(case):
         obs['fp'] = ['ok', canon(fp_obj, sb.unsub)] if fp[0] == 'ok' else fp
         fpath = attempt(lambda: ctx.get_formatted_value(to_py(case.get('fetch_path', case['path']), sb.sub)))
         obs['fetch_path'] = canon(fpath[1], sb.unsub) if fpath[0] == 'ok' else None
-        if 'payload' in case:
-            st = std_format_nodes(to_py(case['payload'], sb.sub), plain_ctx(case, sb))
-            if st is not NA:
-                obs['fp_std'] = canon(st, sb.unsub)
+        # the same, by python's own formatter (no pypyr code), where it applies; without a
+        # payload the document is the whole context - root keys included
+        src = to_py(case['payload'], sb.sub) if 'payload' in case else dict(ctx)
+        st = std_format_nodes(src, plain_ctx(case, sb))
+        if st is not NA:
+            obs['fp_std'] = canon(st, sb.unsub)
         if 'key' in case and case.get('fetch_form') != 'str':
             kf = attempt(lambda: ctx.get_formatted_value(to_py(case['key'], sb.sub)))
             obs['key_f'] = ['ok', canon(kf[1], sb.unsub)] if kf[0] == 'ok' else kf
